@@ -895,9 +895,13 @@ func (c *Ctx) timeoutListIdentity() {
 					cs := callersOf(fn)
 					okID = idx >= 0 && len(cs) > 0
 					for _, cc := range cs {
-						if !isGlobalKeyArg(cc.Parent(), cc.Common().Args[idx]) {
+						if idx < 0 || idx >= len(cc.Common().Args) || !isGlobalKeyArg(cc.Parent(), cc.Common().Args[idx]) {
 							okID = false
 						}
+					}
+					if idx < 0 && p.Parent() != nil && p.Parent() != fn {
+						// the id is a parameter of the function that filled a context struct: decided there
+						okID = isGlobalKeyArg(p.Parent(), p)
 					}
 				}
 			}
